@@ -378,6 +378,236 @@ impl Streamertail {
         }
     }
 
+    /// Whether evaluating `plan` with the solutions of a join partner as input
+    /// yields the same result as evaluating it on its own and joining afterwards.
+    ///
+    /// Scans, VALUES, UNION, GRAPH and subqueries only ever restrict by
+    /// compatibility. FILTER and BIND evaluate an expression over the solutions of
+    /// their own group: a variable that the group binds in some solutions only must
+    /// stay unbound in the others (expression error), even if the join partner binds
+    /// it. Variables the group binds in every solution are merely restricted, and a
+    /// variable the group never binds keeps being supplied by the join partner, which
+    /// is how correlated references such as `VALUES ?w {..} GRAPH ?g { .. FILTER(?v = ?w) }`
+    /// are evaluated.
+    fn accepts_incoming_bindings(plan: &LogicalOperator) -> bool {
+        match plan {
+            LogicalOperator::Unit
+            | LogicalOperator::Scan { .. }
+            | LogicalOperator::Values { .. }
+            | LogicalOperator::Buffer { .. }
+            | LogicalOperator::Subquery { .. } => true,
+            LogicalOperator::Join { left, right } => {
+                Self::accepts_incoming_bindings(left) && Self::accepts_incoming_bindings(right)
+            }
+            LogicalOperator::Union { branches } => {
+                branches.iter().all(Self::accepts_incoming_bindings)
+            }
+            LogicalOperator::Graph { input, .. } => Self::accepts_incoming_bindings(input),
+            LogicalOperator::Selection {
+                predicate,
+                condition,
+            } => {
+                let mut mentioned = HashSet::new();
+                Self::expression_variables(&condition.expression, &mut mentioned);
+                Self::accepts_incoming_bindings(predicate)
+                    && Self::unaffected_by_incoming_bindings(&mentioned, predicate)
+            }
+            LogicalOperator::Bind {
+                input, arguments, ..
+            } => {
+                let mentioned = arguments
+                    .iter()
+                    .filter(|argument| argument.starts_with(['?', '$']))
+                    .map(|argument| Self::plain_variable(argument).to_string())
+                    .collect();
+                Self::accepts_incoming_bindings(input)
+                    && Self::unaffected_by_incoming_bindings(&mentioned, input)
+            }
+            LogicalOperator::Projection { .. } | LogicalOperator::MLPredict { .. } => false,
+        }
+    }
+
+    /// An expression over the solutions of `input` sees the same values with or
+    /// without incoming bindings when each variable it mentions is bound by every
+    /// solution of `input`, or by none of them.
+    fn unaffected_by_incoming_bindings(mentioned: &HashSet<String>, input: &LogicalOperator) -> bool {
+        let (possible, certain) = Self::bound_variables(input);
+        mentioned
+            .iter()
+            .all(|variable| certain.contains(variable) || !possible.contains(variable))
+    }
+
+    fn plain_variable(variable: &str) -> &str {
+        variable
+            .strip_prefix('?')
+            .or_else(|| variable.strip_prefix('$'))
+            .unwrap_or(variable)
+    }
+
+    fn expression_variables(expression: &ConditionExpression, out: &mut HashSet<String>) {
+        fn arithmetic(expression: &ConditionArithmetic, out: &mut HashSet<String>) {
+            match expression {
+                ConditionArithmetic::Operand(value) => {
+                    if value.starts_with(['?', '$']) {
+                        out.insert(Streamertail::plain_variable(value).to_string());
+                    }
+                }
+                ConditionArithmetic::Add(left, right)
+                | ConditionArithmetic::Subtract(left, right)
+                | ConditionArithmetic::Multiply(left, right)
+                | ConditionArithmetic::Divide(left, right) => {
+                    arithmetic(left, out);
+                    arithmetic(right, out);
+                }
+            }
+        }
+        match expression {
+            ConditionExpression::Comparison(variable, _, value) => {
+                for operand in [variable, value] {
+                    if operand.starts_with(['?', '$']) {
+                        out.insert(Self::plain_variable(operand).to_string());
+                    }
+                }
+            }
+            ConditionExpression::ArithmeticComparison(left, _, right) => {
+                arithmetic(left, out);
+                arithmetic(right, out);
+            }
+            ConditionExpression::And(left, right) | ConditionExpression::Or(left, right) => {
+                Self::expression_variables(left, out);
+                Self::expression_variables(right, out);
+            }
+            ConditionExpression::Not(inner) => Self::expression_variables(inner, out),
+            ConditionExpression::ArithmeticExpr(expression) => arithmetic(expression, out),
+            ConditionExpression::FunctionCall(_, arguments) => {
+                for argument in arguments {
+                    if argument.starts_with(['?', '$']) {
+                        out.insert(Self::plain_variable(argument).to_string());
+                    }
+                }
+            }
+        }
+    }
+
+    /// The variables in scope of a plan, i.e. that it may bind (`possible`), and the
+    /// ones it binds in every solution (`certain`), over-approximating the former
+    /// and under-approximating the latter.
+    fn bound_variables(plan: &LogicalOperator) -> (HashSet<String>, HashSet<String>) {
+        match plan {
+            LogicalOperator::Unit => (HashSet::new(), HashSet::new()),
+            LogicalOperator::Scan { pattern } => {
+                let mut variables = HashSet::new();
+                collect_pattern_variables(pattern, &mut variables);
+                (variables.clone(), variables)
+            }
+            LogicalOperator::Union { branches } => {
+                let mut possible = HashSet::new();
+                let mut certain: Option<HashSet<String>> = None;
+                for branch in branches {
+                    let (branch_possible, branch_certain) = Self::bound_variables(branch);
+                    possible.extend(branch_possible);
+                    certain = Some(match certain {
+                        None => branch_certain,
+                        Some(so_far) => so_far.intersection(&branch_certain).cloned().collect(),
+                    });
+                }
+                (possible, certain.unwrap_or_default())
+            }
+            LogicalOperator::Graph { input, graph } => {
+                let (mut possible, mut certain) = Self::bound_variables(input);
+                if let GraphTerm::Variable(variable) = graph {
+                    possible.insert(Self::plain_variable(variable).to_string());
+                    certain.insert(Self::plain_variable(variable).to_string());
+                }
+                (possible, certain)
+            }
+            LogicalOperator::Selection { predicate, .. } => Self::bound_variables(predicate),
+            LogicalOperator::Projection {
+                predicate,
+                variables,
+            } => {
+                let kept: HashSet<String> = variables
+                    .iter()
+                    .map(|variable| Self::plain_variable(variable).to_string())
+                    .collect();
+                let (possible, certain) = Self::bound_variables(predicate);
+                (
+                    possible.intersection(&kept).cloned().collect(),
+                    certain.intersection(&kept).cloned().collect(),
+                )
+            }
+            LogicalOperator::Join { left, right } => {
+                let (mut possible, mut certain) = Self::bound_variables(left);
+                let (right_possible, right_certain) = Self::bound_variables(right);
+                possible.extend(right_possible);
+                certain.extend(right_certain);
+                (possible, certain)
+            }
+            LogicalOperator::Buffer { content, .. } => {
+                let possible: HashSet<String> =
+                    content.iter().flat_map(|row| row.keys().cloned()).collect();
+                let certain = possible
+                    .iter()
+                    .filter(|variable| content.iter().all(|row| row.contains_key(*variable)))
+                    .cloned()
+                    .collect();
+                (possible, certain)
+            }
+            LogicalOperator::Subquery { inner, spec } => {
+                let (possible, certain) = Self::bound_variables(inner);
+                match &spec.projection {
+                    None => (possible, certain),
+                    Some(projection) => {
+                        let mut projected_possible = HashSet::new();
+                        let mut projected_certain = HashSet::new();
+                        for item in projection {
+                            let output = Self::plain_variable(
+                                item.alias.as_deref().unwrap_or(&item.variable),
+                            )
+                            .to_string();
+                            if item.kind == "VAR"
+                                && certain.contains(Self::plain_variable(&item.variable))
+                            {
+                                projected_certain.insert(output.clone());
+                            }
+                            projected_possible.insert(output);
+                        }
+                        (projected_possible, projected_certain)
+                    }
+                }
+            }
+            LogicalOperator::Bind {
+                input,
+                output_variable,
+                ..
+            }
+            | LogicalOperator::MLPredict {
+                input,
+                output_variable,
+                ..
+            } => {
+                let (mut possible, certain) = Self::bound_variables(input);
+                possible.insert(Self::plain_variable(output_variable).to_string());
+                (possible, certain)
+            }
+            LogicalOperator::Values { variables, values } => {
+                let mut possible = HashSet::new();
+                let mut certain = HashSet::new();
+                for (index, variable) in variables.iter().enumerate() {
+                    let bound = |row: &Vec<Option<u32>>| row.get(index).is_some_and(Option::is_some);
+                    let name = Self::plain_variable(variable).to_string();
+                    if values.iter().all(bound) {
+                        certain.insert(name.clone());
+                    }
+                    // A declared variable is in scope of the group even if every row
+                    // leaves it UNDEF.
+                    possible.insert(name);
+                }
+                (possible, certain)
+            }
+        }
+    }
+
     /// Recursively finds the best plan using dynamic programming with memoization
     fn find_best_plan_recursive(&mut self, logical_plan: &LogicalOperator) -> PhysicalOperator {
         let key = self.create_memo_key(logical_plan);
@@ -478,11 +708,15 @@ impl Streamertail {
                 let best_left_plan = self.find_best_plan_recursive(left);
                 let best_right_plan = self.find_best_plan_recursive(right);
 
-                // Implementation rules: costing decides between the three join algorithms
-                candidates.push(PhysicalOperator::bind_join(
-                    best_left_plan.clone(),
-                    best_right_plan.clone(),
-                ));
+                // Implementation rules: costing decides between the three join algorithms.
+                // A bind join feeds the left solutions into the right subtree, which is
+                // only a join when nothing on the right can observe those bindings.
+                if Self::accepts_incoming_bindings(right) {
+                    candidates.push(PhysicalOperator::bind_join(
+                        best_left_plan.clone(),
+                        best_right_plan.clone(),
+                    ));
+                }
 
                 candidates.push(PhysicalOperator::hash_join(
                     best_left_plan.clone(),
